@@ -52,16 +52,30 @@ def groove_oracle(chk, name, kw, g):
                 return chk.fail('junction-continuity', f"{name}{kw}: local_depth differs across junction {j} ({a:.9g} | {b:.9g})", data)
 
 
-def roll_oracle(chk, name, kw, g, rng):
+def roll_oracle(chk, name, kw, g, rng, other=None):
     from pyroll.core import Roll
     size = max(g.usable_width, g.depth)
     data = {'groove': name, 'kwargs': kw}
     roll = None
     # histories: a fresh roll; a fresh roll with a contact length; then the SAME roll object after its contact length and after its
     # nominal radius were changed and the cache re-evaluated (as a solve loop does between iterations)
-    for step, (nominal, cl) in enumerate(((size * rng.uniform(3, 8), None), (size * rng.uniform(3, 8), size * rng.uniform(0.3, 1.2)),
-                                          (None, size * rng.uniform(0.3, 1.2)), (size * rng.uniform(3, 8), None))):
-        if step < 2:
+    steps = [(size * rng.uniform(3, 8), None), (size * rng.uniform(3, 8), size * rng.uniform(0.3, 1.2)),
+             (None, size * rng.uniform(0.3, 1.2)), (size * rng.uniform(3, 8), None)]
+    if other is not None:
+        steps += [('swap-groove', None), ('swap-back', None)]
+    g_first = g
+    for step, (nominal, cl) in enumerate(steps):
+        if nominal in ('swap-groove', 'swap-back'):
+            # the SAME roll object gets another groove (deeper or shallower), the cache is re-evaluated
+            g = other if nominal == 'swap-groove' else g_first
+            roll.surface_y      # make sure the grid and the contour line were read before the swap
+            roll.contour_line
+            roll.groove = g
+            roll.reevaluate_cache()
+            nominal, cl = roll.nominal_radius, None
+            data = dict(data, history=f"re-used roll after its groove was replaced by {type(g).__name__} and reevaluate_cache()")
+            size = max(g.usable_width, g.depth)
+        elif step < 2:
             kwr = dict(groove=g, nominal_radius=nominal)
             if cl is not None:
                 kwr['contact_length'] = cl
@@ -73,15 +87,19 @@ def roll_oracle(chk, name, kw, g, rng):
                 roll.nominal_radius = nominal
             roll.reevaluate_cache()
             nominal = roll.nominal_radius
-        data = dict(data, nominal_radius=nominal, contact_length=cl, history='fresh roll' if step < 2 else 're-used roll after changing '
-                    + ('contact_length' if step == 2 else 'nominal_radius') + ' and reevaluate_cache()')
+        if step < 4:
+            data = dict(data, nominal_radius=nominal, contact_length=cl, history='fresh roll' if step < 2 else 're-used roll after changing '
+                        + ('contact_length' if step == 2 else 'nominal_radius') + ' and reevaluate_cache()')
         sx, sz, sy = np.asarray(roll.surface_x), np.asarray(roll.surface_z), np.asarray(roll.surface_y)
         cp = np.asarray(g.contour_points)
         tol = 1e-9 * nominal
         chk.cov['evaluations'] += sy.size
-        if np.max(np.abs(np.asarray(roll.contour_points) - cp)) > 0:
+        if np.asarray(roll.contour_points).shape != cp.shape or np.max(np.abs(np.asarray(roll.contour_points) - cp)) > 0:
             return chk.fail('roll-contour', f"{name}: the roll's contour points differ from the groove's", data)
-        if sy.shape != (len(sz), len(sx)) or np.max(np.abs(sz - cp[:, 0])) > 0:
+        if not (np.all(np.isfinite(sx)) and np.all(np.isfinite(sy)) and np.all(np.isfinite(sz))):
+            return chk.fail('surface-nonfinite', f"{name}: the surface grid contains non-finite values (min radius {float(roll.min_radius):.6g}, deepest contour point "
+                            f"{float(np.max(cp[:, 1])):.6g}, nominal radius {float(roll.nominal_radius):.6g})", data)
+        if sy.shape != (len(sz), len(sx)) or len(sz) != len(cp) or np.max(np.abs(sz - cp[:, 0])) > 0:
             return chk.fail('surface-grid', f"{name}: surface grid does not span contour x rolling direction", data)
         k0 = int(np.argmin(np.abs(sx)))
         if abs(sx[k0]) > tol or np.max(np.abs(sy[:, k0] - cp[:, 1])) > tol:
@@ -275,7 +293,10 @@ def run(chk):
                     break
                 groove_oracle(chk, name, kw2, g)
                 if not chk.failures and (chk.thorough or built % 3 == 0):
-                    roll_oracle(chk, name, kw2, g, rng)
+                    sz = max(g.usable_width, g.depth)
+                    from pyroll.core import RoundGroove
+                    other = RoundGroove(r1=0.05 * sz, r2=0.6 * sz, depth=(0.55 if built % 2 else 0.2) * sz)     # deeper or shallower than g
+                    roll_oracle(chk, name, kw2, g, rng, other)
     # spline grooves behind rolls: the roll representations are class independent
     from pyroll.core import SplineGroove
     for pts in ([(-3, 0), (-2, 0), (-1, 1), (1, 1), (2, 0), (3, 0)], [(-2.5, 0), (-2, 0), (-1.5, 1.5), (0.5, 0.5), (2, 0), (2.5, 0)]):
